@@ -1,6 +1,6 @@
 (* Chk/C14.v -- correspondence check for the text mesh formats at token level. *)
 From Coq Require Import List Arith Bool ZArith PrimFloat String.
-From LaPyV Require Import Base.Scalar Base.Vec3 Base.ListAux Model.TetMesh Model.TriaAdj Model.IOText Chk.Cmp.
+From LaPyV Require Import Base.Scalar Base.Vec3 Base.ListAux Model.TetMesh Model.TriaAdj Model.IOText Model.IOFs Chk.Cmp.
 Import ListNotations.
 
 Definition tok_eqb (a b : tok (K:=float)) : bool :=
@@ -36,9 +36,46 @@ Definition meshres_eqb (a b : meshres) : bool :=
   | _, _ => false
   end.
 
-Inductive c14case :=
-| MeshFiles (written : meshres) (actual : file (K:=float)) (reads : list (rkind * file (K:=float) * meshres)).
+(* ---- FreeSurfer surfaces at field level *)
+Definition fl_eqb (a b : list float) : bool := list_eqb (fun x y => PrimFloat.eqb x y || (is_nan x && is_nan y)) a b.
+Definition zl_eqb' (a b : list Z) : bool := list_eqb Z.eqb a b.
+Definition payload_eqb (a b : payload (K:=float)) : bool :=
+  match a, b with
+  | PStr x, PStr y => String.eqb x y
+  | PInts x, PInts y => zl_eqb' x y
+  | PFloats x, PFloats y => fl_eqb x y
+  | _, _ => false
+  end.
+Definition field_eqb (a b : field (K:=float)) : bool :=
+  match a, b with
+  | FMagic x y z, FMagic x' y' z' => Nat.eqb x x' && Nat.eqb y y' && Nat.eqb z z'
+  | FLine x, FLine y => String.eqb x y
+  | FI32 x, FI32 y => Z.eqb x y
+  | FF32 x, FF32 y => PrimFloat.eqb x y || (is_nan x && is_nan y)
+  | FKey k p, FKey k' p' => String.eqb k k' && payload_eqb p p'
+  | _, _ => false
+  end.
+Definition fsinfo_eqb (a b : fsinfo (K:=float)) : bool :=
+  zl_eqb' (fs_head a) (fs_head b) && String.eqb (fs_valid a) (fs_valid b) && String.eqb (fs_filename a) (fs_filename b) &&
+  zl_eqb' (fs_volume a) (fs_volume b) && fl_eqb (fs_voxelsize a) (fs_voxelsize b) && fl_eqb (fs_xras a) (fs_xras b) &&
+  fl_eqb (fs_yras a) (fs_yras b) && fl_eqb (fs_zras a) (fs_zras b) && fl_eqb (fs_cras a) (fs_cras b).
+Definition v3tuple (p : float * float * float) : vec3 float := p.
+(* observed result of read_fssurf: no mesh (any exception), or vertices, triangles, header *)
+Inductive fsobs := FsNone | FsMesh (v : list (vec3 float)) (t : list tri) (info : option (fsinfo (K:=float))).
+Definition fs_read_ok (f : fsfile (K:=float)) (o : fsobs) : bool :=
+  match read_fs f, o with
+  | FsErr _, FsNone => true
+  | FsOk (v, t, info, _), FsMesh v' t' info' =>
+      list_eqb v3_eqb v v' && tri_list_eqb t t' && opt_eqb fsinfo_eqb info info'
+  | _, _ => false
+  end.
 
+Inductive c14case :=
+| MeshFiles (written : meshres) (actual : file (K:=float)) (reads : list (rkind * file (K:=float) * meshres))
+(* the mesh and header handed to write_fssurf (coordinates as float32, header floats as formatted), the fields of the file it wrote,
+   and files (complete, truncated, wrong magic) with what read_fssurf made of them *)
+| FsFiles (stamp : string) (v : list (vec3 float)) (t : list tri) (info : option (fsinfo (K:=float))) (actual : fsfile (K:=float))
+          (reads : list (fsfile (K:=float) * fsobs)).
 Definition check_c14 (c : c14case) : list bool :=
   match c with
   | MeshFiles written actual reads =>
@@ -48,4 +85,10 @@ Definition check_c14 (c : c14case) : list bool :=
         | NoMesh => true
         end;
         forallb (fun '(k, f, r) => meshres_eqb (read_with k f) r) reads ]
+  | FsFiles stamp v t info actual reads =>
+      [ list_eqb field_eqb (write_fs id32 id32 stamp v t info) actual;
+        forallb (fun '(f, o) => fs_read_ok f o) reads ]
   end.
+
+Definition and2 (a b : list bool) : list bool := map (fun '(x, y) => x && y) (combine a b).
+Definition check_c14_multi (cs : list c14case) : list bool := fold_left (fun acc c => and2 acc (check_c14 c)) cs [true; true].
